@@ -11,23 +11,23 @@ P = {
  'C04': ("`decode_pieces` (text buffer = XML 2.11 decoding for every sequence of literal runs and references), `text_run_decoded` (the builder's text loop end to end at entity depth 0), CDATA = lineEnds, one text node per run (`parsed_no_adjacent_text` in C02).",
          "runs containing general entity references: correspondence + exhaustive piece enumeration"),
  'C05': ("`attribute_value_normalized` (normalize_attribute end to end at depth 0 = XML 3.3.3), `pushLit_spec`, `charref_kept`, `routing` (xmlns attributes never reach the attribute list, others in source order).",
-         "entity references inside values: correspondence"),
- 'C06': ("`pushNs_spec` (deduplicating table, 16-bit index bound), `scoping` (own declaration, else the parent's resolution), `prefix_lookup_is_first_binding`, implicit xml prefix, attribute namespaces.",
-         "resolution of whole documents end to end: correspondence"),
- 'C07': ("first declaration wins, a declaration after the first use is found, literal content independent of the depth.",
-         "equivalence of a reference with its replacement text written in place is decided by the hoisting special run (implementation vs implementation, and vs model), not by a theorem"),
+         "values with nested or repeated entity references: correspondence (one reference between literal parts is proved in C07)"),
+ 'C06': ("`pushNs_spec` (deduplicating table, 16-bit index bound), `scoping` (own declaration, else the parent's resolution), `prefix_lookup_is_first_binding`, `element_namespace` / `element_xml_prefix` (every element of every parsed document is in the namespace its prefix resolves to in its own scope; undeclared prefix impossible in an accepted document), attribute namespaces.",
+         "attribute-namespace resolution end to end: correspondence"),
+ 'C07': ("`entity_reference_equals_replacement_text` (for every abstract document and every run of children moved into an internal general entity, the hoisted document parses to exactly the tree of the inline document), `entity_reference_in_attribute_value` (p&name;q normalises to the normalisation of p, the replacement text and q), first declaration wins, a declaration after the first use is found.",
+         "nested / repeated references and references adjacent to text are decided by the hoisting special run (implementation vs implementation, and vs model)"),
  'C08': ("85 theorems: the implementation's Char/NameStartChar/NameChar/S tables equal XML 1.0 5th ed. (re-checked against the built crate on every run); `delivered_tokens_lexical`; every rejection rule stated outright in Props/C08Reject (mismatched/stray end tag, entity boundary, no/unclosed root, duplicate attribute, duplicate namespace declaration incl. xml, undeclared prefix, xml/xmlns misuse, undefined/malformed references, '<' in attribute values, '--' in comments, ']]>' in text, detector limits, DtdDetected).",
          "grammar soundness as one statement: correspondence + ill-forming catalogue"),
- 'C09': ("`accepts_iff`/`walk_inner`/`walk_top` (exact acceptance set of the loop detector: nesting <= 10, <= 255 nested references per top-level reference, unbounded at depth 0), `parse_walks_protocol` (the builder touches the detector only by walking that protocol over the forest of expanded references).",
-         "the output-size bound is observed by the entities special run"),
+ 'C09': ("`accepts_iff`/`walk_inner`/`walk_top` (exact acceptance set of the loop detector: nesting <= 10, <= 255 nested references per top-level reference, unbounded at depth 0), `parse_walks_protocol` (the builder touches the detector only by walking that protocol over the forest of expanded references), `node_count_bound` (a successful parse has at most 256 x input length x (number of '&' + 1) nodes: expansion is polynomially bounded for every input).",
+         "wall time and memory of the real run: observed by the entities special run"),
  'C10': ("`parsed_api_total`: every accessor, lookup and iterator is total (no panic, terminates within nodes.len() steps) on every node of every parsed document; `textPosAt_never_panics`.", "Debug formatting at scale: observed"),
- 'C11': ("`next_sibling_of_parsed`, `children_deque` (Children is a deque of the child list under every interleaving of next/next_back), slice iterators, descendants range.", ""),
+ 'C11': ("`traversals_are_functions_of_the_tree` (children, ancestors, siblings, descendants, first/last child of every node of every parsed document equal their specification on the abstract tree), `text_and_tail_of_parsed`, `root_element_of_parsed`, `next_sibling_of_parsed`, `children_deque` (Children is a deque of the child list under every interleaving of next/next_back), slice iterators, descendants range.", ""),
  'C12': ("lookups agree with enumeration: `findAttr_spec`, `attributeNode_first`, `hasTagName_iff`, `lookups_first`, `attrEq_iff`.", ""),
- 'C13': ("`parsed_ranges_valid`: every node and attribute range of every parsed document is ordered, inside the input and on character boundaries (rangesValidB = true), entity-expanded nodes included; attribute sub-ranges; root range.",
-         "'designates the construct' and shift equivariance: token specification + shift special run"),
- 'C14': ("`textPosAt_total`, clamp and floor to a character boundary, row/column bounds, shift of rows/columns, `errFrom_pos`.", "error payload strings: correspondence"),
+ 'C13': ("`parsed_ranges_valid` (every node and attribute range of every parsed document is ordered, inside the input and on character boundaries, entity-expanded nodes included), `parsed_ranges_designate` (an element's slice runs from its '<' to the '>' of its end tag with its name after '<', a comment's is <!--text-->, a PI's <?target...?>, a borrowed text is its slice or its CDATA section), `parsed_ranges_nested` (default options: child inside parent, siblings disjoint and ascending), `shift_equivariance` (k spaces in front shift every range and borrowed offset by exactly k and change nothing else).",
+         "nesting with allow_dtd=true (entity-expanded nodes): correspondence"),
+ 'C14': ("`textPosAt_total`, clamp and floor to a character boundary, row/column bounds, shift of rows/columns; `error_position_from_input` / `error_position_in_bounds` / `error_column_le_line`: every error parse returns carries the (row, col) of some offset of the input, 1 <= row <= lines, 1 <= col <= characters of that line + 1, entity expansion included.", "error payload strings and the movement of errors under inserted white space: correspondence + shift special run"),
  'C15': ("`cap` (an accepted document never has more nodes than the limit) and `monotone` (raising the limit never changes a result other than NodesLimitReached), for every input.", ""),
- 'C16': ("`dichotomy` (allow_dtd=false gives DtdDetected or exactly the allow_dtd=true result), `no_entity_tokens_by_default`, `no_entity_declared_or_expanded`.", "the content-length consequence is observed, not proved"),
+ 'C16': ("`dichotomy` (allow_dtd=false gives DtdDetected or exactly the allow_dtd=true result), `no_entity_tokens_by_default`, `no_entity_declared_or_expanded`, `content_never_exceeds_input` (with allow_dtd=false the total length of all text, names and values of the tree is at most the input length: no amplification).", ""),
  'C17': ("equality, total order consistent with equality, document grouping and hash coherence of (document address, id).", "the address order itself belongs to the runtime"),
  'C18': ("`parsed_borrowed_are_slices`: every string with the input lifetime in every parsed document is a slice of the input at its recorded offset; fast paths keep Borrowed.", ""),
  'C19': ("`positions_only_adds_ranges` (parsing without the feature = parsing with it, ranges erased), determinism.", "the std feature is covered by four feature-set builds of the harness"),
